@@ -326,8 +326,8 @@ class ShapeRun:
 def class_key(shape):
     body = shape["body"]
     nrep = [c["replicate"] for c in body if c.get("replicate") is not None]
-    return "S%d|offs%s|rep%s%s|carried%d|inv%d|cons%s|cond%s%s" % (
-        shape["S"], "".join(str(c["off"]) for c in body), nrep[0] if nrep else "-",
+    return "S%d|body%d.maxoff%d|rep%s%s|carried%d|inv%d|cons%s|cond%s%s" % (
+        shape["S"], len(body), max(c["off"] for c in body), nrep[0] if nrep else "-",
         "v" if shape.get("repl_via_var") else "",
         sum(1 for b in shape["bindings"].values() if b["loop"]),
         sum(1 for b in shape["bindings"].values() if not b["loop"]),
@@ -379,7 +379,7 @@ def main():
     c = vlib.Check(PROP, "exploration",
                    rule="one case = one generated DoWhile package shape unrolled to K further iterations with the "
                         "oracle evaluated after EVERY iteration; distinct = distinct structural classes (import stage, "
-                        "body stage offsets, replication, #carried/#invariant bindings, outside reference methods, "
+                        "body size and max stage offset, replication, #carried/#invariant bindings, outside reference methods, "
                         "condition placement) among shapes that were unrolled to K; non-trivial = K >= 10",
                    assumptions=[
                        "names are mutually substring-free and every reference occurs once per argument string "
